@@ -262,7 +262,7 @@ def run(report, tier, seed):
         for i in range(300 if tier == "quick" else 6000):
             frame_case(report, drv, rng, loop)
         https = {st.backend: make_http(st) for st in stores}
-        for i in range(60 if tier == "quick" else 1500):
+        for i in range(250 if tier == "quick" else 3000):
             for st in stores:
                 store_case(report, rng, st, keys, https[st.backend])
     finally:
